@@ -112,3 +112,37 @@ Definition parse_obs (s : text) : text :=
   | LexErr es => sb "LEX" ++ lex_result_obs (LexErr es)
   | LexFuel => sb "FUEL"
   end.
+
+(** * run channel K3 *)
+From Aplang Require Import Tables Value StrLib EvalImpl.
+
+Definition run_fuel : nat := N.to_nat 30000.
+
+Definition res_obs (r : res unit) : text :=
+  match r with
+  | ROk _ st => sb "OK " ++ hex_or_dash (output_of st)
+  | RErr k spn st => sb "RT:" ++ sb (rt_name k) ++ colon ++ span_obs spn ++ sp ++ hex_or_dash (output_of st)
+  | RExit st => sb "EXIT " ++ hex_or_dash (output_of st)
+  | RPanic _ st => sb "PANIC " ++ hex_or_dash (output_of st)
+  | RFuel => sb "FUEL"
+  end.
+
+Definition run_with (src : text) (orc0 : oracle) (stdin0 : text) : text :=
+  match lex src with
+  | LexErr es => sb "LEX" ++ lex_result_obs (LexErr es)
+  | LexFuel => sb "FUEL"
+  | LexOk ts =>
+    match parse_tokens ts with
+    | ParseOk prog => res_obs (block_top (exec run_fuel) prog (fresh_state [] [] stdin0 orc0 []))
+    | ParseErr es => sb "PARSE" ++ parse_result_obs (ParseErr es)
+    | ParsePanic _ => sb "PANIC"
+    | ParseFuel => sb "FUEL"
+    end
+  end.
+
+Definition no_oracle : oracle := mkOracle [] [] 1700000000000%float [].
+Definition run_obs (src : text) : text := run_with src no_oracle [].
+Definition run_obs_files (src : text) (files : list (text * text)) : text :=
+  run_with src (mkOracle [] [] 1700000000000%float files) [].
+Definition run_obs_libm (src : text) (tab : list (string * list N * N)) : text :=
+  run_with src (mkOracle tab [] 1700000000000%float []) [].
